@@ -109,6 +109,8 @@ func parseCfg(lines []string, def HarnessCfg) HarnessCfg {
 						cfg.CapVars[n] = true
 					}
 				}
+			case "cutloop":
+				cfg.CutLoopFn = v
 			case "trigger":
 				cfg.CapTrigger = v
 			case "cut":
@@ -362,8 +364,11 @@ func runHarness(prog *ssa.Program, fn *ssa.Function, cfg HarnessCfg, solverKind,
 	// vacuity: end of harness reachable under the assumptions
 	vr := ex.check([]*Term{st.g}, nil)
 	res.Vacuity = vr.Status
-	res.NumObl = len(ex.obligations) + ex.folded
-	res.Discharged = ex.folded
+	res.NumObl = len(ex.obligations) + ex.folded + ex.eagerPanics
+	res.Discharged = ex.folded + ex.eagerPanics
+	if ex.eagerPanics > 0 {
+		res.Obligations = append(res.Obligations, OblResult{Kind: "panic", ID: fmt.Sprintf("%d run-time panic conditions", ex.eagerPanics), Status: "unsat", Sample: "discharged eagerly during symbolic execution (one query each)"})
+	}
 	for _, f := range ex.foldedIDs {
 		res.Obligations = append(res.Obligations, OblResult{Kind: "assert", ID: f, Status: "unsat", Sample: "decided by constant folding during symbolic execution"})
 	}
